@@ -1,4 +1,4 @@
-import SlimModel.SlimMsg
+import SlimModel.BitsFast
 /-
   SlimModel.Bits — bitmaps as 64-bit words with rank/select indexes: the subset of
   github.com/openacid/low/bitmap that slim uses (`Of`, `OfMany`, `IndexRank64`, `IndexRank128`,
@@ -9,50 +9,6 @@ import SlimModel.SlimMsg
 -/
 
 namespace Bits
-
-/-- number of set bits among the low 64 bits (`bits.OnesCount64`) -/
-def popcount (w : Nat) : Nat := ((List.range 64).filter (fun i => w.testBit i)).length
-
-/-- `bitmap.Of(positions, capa)`: positions are ascending; capacity is at least `capa` bits,
-    rounded up to whole words. -/
-def ofIdx (idxs : List Nat) (capa : Nat) : List Nat :=
-  let n := max capa (match idxs.getLast? with | some l => l + 1 | none => 0)
-  let nWords := (n + 63) / 64
-  let arr := idxs.foldl (fun (a : Array Nat) i => a.modify (i / 64) (· ||| (1 <<< (i % 64))))
-    (Array.replicate nWords 0)
-  arr.toList
-
-/-- `bitmap.OfMany(subs, sizes)`: concatenation of sub-bitmaps of the given sizes -/
-def ofMany (subs : List (List Nat)) (sizes : List Nat) : List Nat :=
-  let rec go : List (List Nat) → List Nat → Nat → List Nat → List Nat × Nat
-    | s :: ss, z :: zs, base, acc => go ss zs (base + z) (acc ++ s.map (base + ·))
-    | _, _, base, acc => (acc, base)
-  let (r, base) := go subs sizes 0 []
-  ofIdx r base
-
-/-- `bitmap.IndexRank64(words, trailing)` -/
-def indexRank64 (words : List Nat) (trailing : Bool) : List Nat :=
-  let rec go : List Nat → Nat → List Nat
-    | [], n => if trailing then [n] else []
-    | w :: ws, n => n :: go ws (n + popcount w)
-  go words 0
-
-/-- `bitmap.IndexRank128(words)` -/
-def indexRank128 (words : List Nat) : List Nat :=
-  let rec go : List Nat → Nat → List Nat
-    | [], n => [n]                       -- even number of words: trailing total
-    | [_], n => [n]                      -- odd: the last entry covers the single last word
-    | w1 :: w2 :: ws, n => n :: go ws (n + popcount w1 + popcount w2)
-  go words 0
-
-/-- `bitmap.ToArray(words)`: positions of the set bits -/
-def toArray (words : List Nat) : List Nat :=
-  (List.range (words.length * 64)).filter (fun i => (words.getD (i / 64) 0).testBit (i % 64))
-
-/-- select index part of `IndexSelect32R64`: position of every 32nd set bit -/
-def indexSelect32 (words : List Nat) : List Nat :=
-  let ones := toArray words
-  (List.range ((ones.length + 31) / 32)).map (fun k => ones.getD (k * 32) 0)
 
 def mk (words : List Nat) (opt : String) : BitmapMsg :=
   match opt with
@@ -79,17 +35,6 @@ def rank128 (b : BitmapMsg) (i : Nat) : Except Err (Nat × Bool) :=
     .ok (n - atRight * popcount w + popcount (w % 2 ^ (i % 64)), w.testBit (i % 64))
   | _, _ => .error (.panic "index out of range (Rank128)")
 
-/-- position of the `k`-th (0-based) set bit of `w` at or above bit `from`, if any -/
-def selectInWord (w : Nat) (k : Nat) : Option Nat :=
-  ((List.range 64).filter (fun i => w.testBit i))[k]?
-
-/-- first set bit position ≥ `pos` in `words`, else `words.length * 64` -/
-def nextOne (words : List Nat) (pos : Nat) : Nat :=
-  let total := words.length * 64
-  match (List.range' pos (total - pos)).find? (fun i => (words.getD (i / 64) 0).testBit (i % 64)) with
-  | some i => i
-  | none => total
-
 /-- `bitmap.Select32R64(words, sidx, ridx, i)`: (position of the i-th one, position of the next one
     or `len*64`).  The word is found by walking the rank index from the word the select index
     names; running off either index is a Go panic. -/
@@ -115,5 +60,44 @@ def bitsOf (words : List Nat) : List Bool :=
 
 def specRank (bits : List Bool) (i : Nat) : Nat := (bits.take i).count true
 def specBit (bits : List Bool) (i : Nat) : Bool := bits.getD i false
+
+/-! ### `select32R64`, compiled form
+
+  The walk over the rank index reads `rankIndex[wordI + 1]?` in every step, an O(wordI) list
+  access; the compiled form drops the first `wordI + 1` entries once and then follows the list.
+  Equal by `select32R64_eq_fast` (`@[csimp]`: every later definition is compiled with it). -/
+
+/-- the walk of `select32R64` along the rest of the rank index -/
+def walkList (i : Nat) : List Nat → Nat → Nat → Except Err Nat
+  | _, 0, _ => .error (.panic "index out of range (rankIndex)")
+  | [], _ + 1, _ => .error (.panic "index out of range (rankIndex)")
+  | r :: rs, fuel + 1, wordI => if r ≤ i then walkList i rs fuel (wordI + 1) else .ok wordI
+
+theorem select32R64_walk_eq (b : BitmapMsg) (i fuel wordI : Nat) :
+    select32R64.walk b i fuel wordI = walkList i (b.rankIndex.drop (wordI + 1)) fuel wordI := by
+  induction fuel generalizing wordI with
+  | zero => cases b.rankIndex.drop (wordI + 1) <;> rfl
+  | succ fuel ih =>
+    unfold select32R64.walk
+    rcases Nat.lt_or_ge (wordI + 1) b.rankIndex.length with h | h
+    · rw [List.drop_eq_getElem_cons h, List.getElem?_eq_getElem h]
+      simp only [walkList]
+      rw [ih (wordI + 1)]
+    · rw [List.drop_of_length_le h, List.getElem?_eq_none h]
+      rfl
+
+def select32R64Fast (b : BitmapMsg) (i : Nat) : Except Err (Nat × Nat) := do
+  let some s0 := b.selectIndex[i / 32]? | .error (.panic "index out of range (selectIndex)")
+  let wordI ← walkList i (b.rankIndex.drop (s0 / 64 + 1)) (b.rankIndex.length + 1) (s0 / 64)
+  let some w := b.words[wordI]? | .error (.panic "index out of range (words)")
+  let some base := b.rankIndex[wordI]? | .error (.panic "index out of range (rankIndex)")
+  let some off := selectInWord w (i - base) | .error (.panic "select: not enough bits in word")
+  let a := wordI * 64 + off
+  return (a, nextOne b.words (a + 1))
+
+@[csimp] theorem select32R64_eq_fast : @select32R64 = @select32R64Fast := by
+  funext b i
+  unfold select32R64 select32R64Fast
+  simp only [select32R64_walk_eq]
 
 end Bits
